@@ -490,4 +490,8 @@ func runC03(r *Run) {
 			lifeScript(r, i, "C03")
 		}
 	}
+	// restored deadlines falling right after a LoadCache, in real time (c11.go)
+	for i := 0; i < r.Pick(3, 24); i++ {
+		c11DeadlineRightAfterLoad(r, 100+i)
+	}
 }
